@@ -34,7 +34,7 @@ impl Prop for C01Prop {
     }
 
     fn rule(&self) -> &'static str {
-        "one payload (token grammar: random bytes, 1b runs, zero runs, start / end look-alikes; length classes incl. 252..260, 1020..1028, 8188..8194; forced tails of 0-9 zeros x 0-9 1b) framed by a real encoder (buffer or iterator), perfect link, one of the six front-ends x {Vec, ArrayBuf<N>=|p| or larger, default 8 KiB}; sub-configuration B adds WouldBlock/Interrupted arrivals on io::Read. Non-trivial = the frame was delivered; distinct = distinct scenario fingerprint (payload, encoder, front-end, buffer, arrival schedule)"
+        "one payload (token grammar: random bytes, 1b runs, zero runs, start / end look-alikes; length classes incl. 252..260, 1020..1028, 8188..8194; forced tails of 0-9 (rarely 250..260, 505..515, 1020..1275, 65535..65540) zeros x 1b; payloads whose frame checksum is 0000 / ffff / 1b1b / ...; push decoders built with from_buf over a dirty buffer for a third of the streams) framed by a real encoder (buffer or iterator), perfect link, one of the six front-ends x {Vec, ArrayBuf<N>=|p| or larger, default 8 KiB}; sub-configuration B adds WouldBlock/Interrupted arrivals on io::Read. Non-trivial = the frame was delivered; distinct = distinct scenario fingerprint (payload, encoder, front-end, buffer, arrival schedule)"
     }
 
     fn assumptions(&self) -> Vec<&'static str> {
